@@ -60,6 +60,8 @@ structure St where
   nheld : List (Nat × Nat) := []
   /-- rids looked up (acquired) while resident and held ever since (LRU: pinned) -/
   pinned : List Nat := []
+  /-- rids that were pinned once and whose last handle has been dropped since (must be evictable again) -/
+  released : List Nat := []
   caps : List Nat := []
   nextRid : Nat := 0
 
@@ -110,6 +112,10 @@ def checkVictims (st : St) (p : Params) (shard target : Nat) (victims : List Nat
         shardOfRid st rid = shard && !victims.contains rid && !exclude.contains rid
       let evictable := rest.filter fun (_, rid) => !(p.isLru && st.pinned.contains rid)
       if evictable.isEmpty then none
+      else if p.isLru && (evictable.any fun (_, rid) => st.released.contains rid) then
+        -- C18: the entry was pinned by a lookup and its last handle is gone; it must have become evictable again
+        some { prop := "C05+C18", clause := "released_entry_evictable_again",
+               detail := s!"shard {shard}: usage {u} > target {target} after the evictions although rid {((evictable.filter fun (_, rid) => st.released.contains rid).map (·.2))} was released by its last handle" }
       else some { prop := "C05", clause := "evict_until_within_capacity",
                   detail := s!"shard {shard}: usage {u} > target {target} after the evictions but rid {(evictable.map (·.2))} evictable" }
 
@@ -253,7 +259,8 @@ def step (p : Params) (st : St) (o : MemObs) : St × Option Fail :=
     | .drop rid, _ =>
       let n := nheldOf st1 rid
       if n = 0 then st1
-      else if n = 1 then { st1 with nheld := assocDel st1.nheld rid, pinned := st1.pinned.filter (· ≠ rid) }
+      else if n = 1 then { st1 with nheld := assocDel st1.nheld rid, pinned := st1.pinned.filter (· ≠ rid),
+                                    released := if st1.pinned.contains rid then rid :: st1.released else st1.released }
       else { st1 with nheld := assocSet st1.nheld rid (n - 1) }
     | .resize cap, _ => { st1 with caps := (List.range nsh).map fun i => shardCapacityFor cap nsh i }
     | _, _ => st1
